@@ -13,7 +13,7 @@ import (
 func init() { register("C12", true, runC12) }
 
 func runC12(c *Check) {
-	c.Explanation = "Decides the frame clause of C12 for every profile, mode and plug-in behaviour: in the call tree of (*Symbolizer).Symbolize (local, remote, demangle) no reachable pprof function can write any field of the profile data model other than Function.*, Line.*, Location.Line, Location.IsFolded, Mapping.Has* and Profile.Function (R1); Has* flags are only ever set to true and an already-symbolized mapping is skipped unless force (R2); every id given to a new function is derived from existing ids (max+1), never from the length of a possibly sparse table (R3); demangling never stores an empty name over a non-empty one structurally (R4). Not decided: that the attached names are the right ones, CheckValid after symbolization, plug-in internals."
+	c.Explanation = "Decides the frame clause of C12 for every profile, mode and plug-in behaviour: in the call tree of (*Symbolizer).Symbolize (local, remote, demangle) no reachable pprof function can write any field of the profile data model other than Function.*, Line.*, Location.Line, Location.IsFolded, Mapping.Has* and Profile.Function (R1); Has* flags are only ever set to true and an already-symbolized mapping is skipped unless force (R2); every id given to a new function is derived from existing ids (max+1), never from the length of a possibly sparse table (R3); demangling never stores an empty name over a non-empty one structurally (R4); every pre-sized line is assigned (R5); a location's line list is only ever replaced by a list with at least one entry, so an empty answer erases nothing (R6). Not decided: that the attached names are the right ones, CheckValid after symbolization, plug-in internals."
 	p := c.P
 	m := newModAnalyzer(p)
 	roots := []*ssa.Function{
@@ -146,6 +146,56 @@ func runC12(c *Check) {
 			c.bad("C12-R5", "lines-filled", p.relFile(elemStore.Pos()), "a path through the frame loop of symbolizeOneMapping skips the assignment of l.Line[i]: the pre-sized slice keeps a zero Line with a nil Function and the profile is no longer valid")
 		} else {
 			c.ok("C12-R5", "lines-filled", p.relFile(elemStore.Pos()), "every element of the pre-sized Location.Line is assigned", "no path through one iteration of the frame loop avoids the store to l.Line[i]")
+		}
+	}
+
+	// R6: symbolization only attaches.  A location's line list is replaced only by a list
+	// with at least one entry: an empty answer from the object file or the symbolz service
+	// must leave the names the profile already carries in place.
+	{
+		g := newGuardEngine(p)
+		n := 0
+		for _, rel := range []string{"internal/symbolizer", "internal/symbolz"} {
+			forAllPkgFuncs(p, rel, func(f *ssa.Function) {
+				for _, b := range f.Blocks {
+					for _, ins := range b.Instrs {
+						st, ok := ins.(*ssa.Store)
+						if !ok {
+							continue
+						}
+						fa, ok := st.Addr.(*ssa.FieldAddr)
+						if !ok {
+							continue
+						}
+						if T, F := fieldOf(fa.X.Type(), fa.Field); T != "profile.Location" || F != "Line" {
+							continue
+						}
+						n++
+						key := "non-empty-lines:" + fnName(f)
+						min := g.minLenByConstruction(st.Val, 0)
+						how := "the assigned list is built with at least one entry"
+						if mk, ok := st.Val.(*ssa.MakeSlice); ok {
+							if k, ok := constInt(mk.Len); ok && k > min {
+								min = k
+							}
+							if la := lenArg(mk.Len); la != nil {
+								if m := g.guardedMin(guardSite{fn: f, ins: st, x: la}, la); m > min {
+									min = m
+									how = "its length is len(" + describeValue(la) + "), which is at least 1 on every path to the assignment"
+								}
+							}
+						}
+						if min >= 1 {
+							c.ok("C12-R6", key, p.relFile(st.Pos()), "Location.Line is replaced only by a non-empty list in "+fnName(f), how)
+						} else {
+							c.bad("C12-R6", key, p.relFile(st.Pos()), fnName(f)+" can replace a location's lines by an empty list: when the object file or service answers with no frames (and no error) the function, file and line information already in the profile is erased while the mapping still claims to have it")
+						}
+					}
+				}
+			})
+		}
+		if n < 2 {
+			c.undecided("C12-R6", "non-empty-lines", "", fmt.Sprintf("expected the local and the symbolz assignment of Location.Line, found %d", n))
 		}
 	}
 }
@@ -288,6 +338,7 @@ func condAssume(cond ssa.Value, force ssa.Value, mv ssa.Value, flag string) int 
 // freshIDs (R3): every value stored into Function.ID / Location.ID / Mapping.ID in the
 // symbolization call tree must be derived from existing ids and constants only.
 func (c *Check) freshIDs(effects []Effect) {
+	idProg = c.P
 	for _, e := range effects {
 		if e.F != "ID" || e.What != "store" || e.Val == nil {
 			continue
@@ -301,7 +352,7 @@ func (c *Check) freshIDs(effects []Effect) {
 		var badLeaves, unk []string
 		for l := range leaves {
 			switch {
-			case strings.HasPrefix(l, "len("):
+			case strings.HasPrefix(l, "len("), strings.HasPrefix(l, "stale counter"):
 				badLeaves = append(badLeaves, l)
 			case strings.HasPrefix(l, "?"):
 				unk = append(unk, l)
@@ -309,7 +360,7 @@ func (c *Check) freshIDs(effects []Effect) {
 		}
 		switch {
 		case len(badLeaves) > 0:
-			c.bad("C12-R3", key, c.P.relFile(e.Pos), fmt.Sprintf("new %s id in %s is computed from %s: on a profile whose id table is sparse this collides with an existing id", e.T, fnName(e.Fn), strings.Join(badLeaves, ",")))
+			c.bad("C12-R3", key, c.P.relFile(e.Pos), fmt.Sprintf("new %s id in %s is computed from %s: this collides with an existing id (a sparse id table, or ids already handed out by an earlier call)", e.T, fnName(e.Fn), strings.Join(badLeaves, ",")))
 		case len(unk) > 0:
 			c.undecided("C12-R3", key, c.P.relFile(e.Pos), fmt.Sprintf("cannot classify the id value stored in %s (%s)", fnName(e.Fn), strings.Join(unk, ",")))
 		default:
@@ -401,9 +452,74 @@ func classifyIDValue(v ssa.Value, fn *ssa.Function, leaves map[string]bool, seen
 		default:
 			leaves["?load "+describeValue(x.X)] = true
 		}
+	case *ssa.Parameter:
+		// a counter handed in by value: look at every call site.  When the call sits in a loop
+		// and the argument is computed outside it, every iteration starts from the same value
+		// and the ids handed out by earlier iterations are given out again.
+		idx := -1
+		for i, pr := range fn.Params {
+			if pr == x {
+				idx = i
+			}
+		}
+		sites := 0
+		if idProg != nil && idx >= 0 {
+			for g := range idProg.AllFns {
+				if !fnInModule(g) {
+					continue
+				}
+				for _, b := range g.Blocks {
+					for _, ins := range b.Instrs {
+						call, ok := ins.(ssa.CallInstruction)
+						if !ok || call.Common().StaticCallee() != fn || idx >= len(call.Common().Args) {
+							continue
+						}
+						sites++
+						arg := call.Common().Args[idx]
+						if staleInLoop(arg, b) {
+							leaves["stale counter "+x.Name()+" (passed by value from "+fnName(g)+" inside a loop, computed outside it)"] = true
+							continue
+						}
+						classifyIDValue(arg, g, leaves, seen, depth+1)
+					}
+				}
+			}
+		}
+		if sites == 0 {
+			leaves["?param "+x.Name()] = true
+		}
 	default:
 		leaves["?"+describeValue(v)] = true
 	}
+}
+
+var idProg *Program
+
+// staleInLoop: the block b lies in a loop and v is defined outside that loop.
+func staleInLoop(v ssa.Value, b *ssa.BasicBlock) bool {
+	var def *ssa.BasicBlock
+	if ins, ok := v.(ssa.Instruction); ok {
+		def = ins.Block()
+	}
+	for d := b; d != nil; d = d.Idom() {
+		isHdr := false
+		for _, pred := range d.Preds {
+			if d.Dominates(pred) {
+				isHdr = true
+			}
+		}
+		if !isHdr {
+			continue
+		}
+		loop := naturalLoop(d)
+		if !loop[b] {
+			continue
+		}
+		if def == nil || !loop[def] {
+			return true
+		}
+	}
+	return false
 }
 
 // resolveCell maps an address value to the Alloc it denotes, following closure bindings.
